@@ -15,12 +15,15 @@ MBOk(e) == e.mbexp <= -8 \/ e.mbexp <= e.linexp + 2
 EndClauses(e) ==
   {c \in {"ConvergedOnlyIfCriteria", "FaultFlagged", "DistanceOfReturned", "ReturnedIsLastValid",
           "MassBalance", "PressurePinned", "CellFluxFromSolution", "TransportDensityFromSolution",
-          "PressureIsSolutionBlock", "PressureOfReturnedFlux"} :
+          "PressureIsSolutionBlock", "PressureOfReturnedFlux", "InnerSolvesSolveTheirSystems"} :
      CASE c = "ConvergedOnlyIfCriteria" -> ~(e.converged = 1 => e.critmet = 1 /\ m.failedAt = -1 /\ ~m.postFailed)
        [] c = "FaultFlagged" -> ~((m.failedAt # -1 \/ m.postFailed) => e.converged = 0)
        [] c = "DistanceOfReturned" -> ~(e.dexp <= -8)
        [] c = "ReturnedIsLastValid" -> ~(e.retver = m.cur)
        [] c = "MassBalance" -> ~MBOk(e)
+       \* the "linear-solver precision" the mass balance is allowed is that of a solve: the direct back-end solves every inner
+       \* system to round-off relative to that system's own right-hand side, whatever the magnitude of the data
+       [] c = "InnerSolvesSolveTheirSystems" -> e.direct = 1 /\ e.linownexp > -8
        [] c = "PressurePinned" -> ~(e.pinexp <= -8)
        [] c = "PressureIsSolutionBlock" -> ~(e.pblkexp <= -12 \/ m.postFailed)
        [] c = "PressureOfReturnedFlux" -> ~(e.pnewtexp <= -6)       \* -17 = not applicable / not decidable
